@@ -98,6 +98,10 @@ func (c *Check) depositPairing(rule string, only ...*Func) {
 		for _, e := range c.directEffects(f) {
 			if e.Kind == "bank" && (isModuleAccount(e.From, "DepositAccName") || isModuleAccount(e.To, "DepositAccName")) {
 				reach := c.reachableFromEntries(f)
+				if reach && c.onlyCalledFromUnits(f, units, 0) {
+					c.ok(rule, unitConstruct(f, "custody-helper"), e.Pos, "custody helper: every caller persists the binding (pairing judged on the callers' paths)")
+					continue
+				}
 				c.req(!reach, rule, unitConstruct(f, "custody-without-record"), e.Pos,
 					"deposit custody operation in a function that persists no binding"+condStr(!reach, " — not reachable from any message, end-block or genesis entry (noted)")+condStr(reach, " — reachable from an entry point"))
 			}
@@ -295,4 +299,31 @@ func (c *Check) reachableFromEntries(f *Func) bool {
 		}
 	}
 	return c.P.reach[f]
+}
+
+// onlyCalledFromUnits: every caller of f is a persisting unit (or, recursively, such a helper).
+func (c *Check) onlyCalledFromUnits(f *Func, units map[*Func][]*PersistPath, depth int) bool {
+	if depth > 3 {
+		return false
+	}
+	n := 0
+	for _, g := range c.handFuncs("keeper", "service") {
+		calls := false
+		for _, h := range c.P.callees(g) {
+			if h == f {
+				calls = true
+			}
+		}
+		if !calls {
+			continue
+		}
+		n++
+		if _, ok := units[g]; ok {
+			continue
+		}
+		if !c.onlyCalledFromUnits(g, units, depth+1) {
+			return false
+		}
+	}
+	return n > 0
 }
